@@ -25,7 +25,9 @@ VARIABLES l, mfiles, mcur, cfiles, ccur,
 Trace == ndJsonDeserialize("trace.ndjson")
 T == Trace[l]
 svars == <<pvars, l, mfiles, mcur, cfiles, ccur, nStarts, nBad, nConn, thr>>
-ThrOff == [on |-> FALSE, min |-> 0, cap |-> 0, tok |-> 0, rec |-> FALSE, win |-> TRUE, lost |-> FALSE]
+ThrOff == [on |-> FALSE, min |-> 0, cap |-> 0, tok |-> 0, rec |-> FALSE, win |-> TRUE, lost |-> FALSE, trigs |-> {}]
+\* thr.trigs: <<a, t>> for every recording the processor model started on this connection: a = the first pre-trigger
+\* frame handed to the motion sink, t = the trigger frame (C02, judged on the files in TFiles)
 \* thr.lost: the temp file of the motion recording in progress was unlinked under the daemon (storage failure scripted
 \* by the harness): the recording goes on, but its final rename fails and no file is published for it
 \* thr.win: whether the recording window read from config.toml is open during the run (runs are scripted with
@@ -61,10 +63,17 @@ Collect(st, cs) ==
                [] c.s = "c" /\ c.op = "stop"  -> (IF st.ccur = <<>> THEN st ELSE [st EXCEPT !.cfiles = Append(@, st.ccur), !.ccur = <<>>])
                [] OTHER -> st
   IN Collect(st1, Tail(cs))
-Upd == /\ \E st \in {Collect([mfiles |-> mfiles, mcur |-> mcur, cfiles |-> cfiles, ccur |-> ccur, thr |-> thr, nst |-> nStarts], out')} :
-            mfiles' = st.mfiles /\ mcur' = st.mcur /\ cfiles' = st.cfiles /\ ccur' = st.ccur /\ thr' = st.thr
+NewTrigs(cs, tid) ==
+  LET starts == {i \in DOMAIN cs : cs[i].s = "m" /\ cs[i].op = "start"}
+  IN {<<cs[j].id, tid>> : j \in {j \in DOMAIN cs : /\ cs[j].s = "m" /\ cs[j].op = "w"
+                                                    /\ \E i \in starts : i < j /\ \A k \in (i + 1)..(j - 1) : ~(cs[k].s = "m" /\ cs[k].op = "w")}}
+UpdT(tid) ==
+       /\ \E st \in {Collect([mfiles |-> mfiles, mcur |-> mcur, cfiles |-> cfiles, ccur |-> ccur, thr |-> thr, nst |-> nStarts], out')} :
+            mfiles' = st.mfiles /\ mcur' = st.mcur /\ cfiles' = st.cfiles /\ ccur' = st.ccur
+            /\ thr' = [st.thr EXCEPT !.trigs = @ \cup (IF tid = 0 THEN {} ELSE NewTrigs(out', tid))]
             /\ nStarts' = st.nst         \* recordings started at the storage layer (what brackets automatic FFC)
        /\ UNCHANGED nConn
+Upd == UpdT(0)
 
 AllOk(mo) == [motion |-> mo, win |-> thr.win, disk |-> TRUE, mStart |-> TRUE, mPre |-> 0, mW |-> TRUE, mStop |-> TRUE,
               cStart |-> TRUE, cW |-> TRUE, cStop |-> TRUE, sStart |-> TRUE, sW |-> TRUE, sStop |-> TRUE]
@@ -79,8 +88,8 @@ TConn == /\ T.ev = "conn"          \* a new camera connection: new processor, se
          /\ cfiles' = (IF T.newrun THEN <<>> ELSE cfiles)
          /\ nStarts' = (IF T.newrun THEN 0 ELSE nStarts) /\ nBad' = (IF T.newrun THEN 0 ELSE nBad)
          /\ nConn' = (IF T.newrun THEN 1 ELSE nConn + 1)
-         /\ thr' = (IF "ThrCap" \in DOMAIN T THEN [on |-> TRUE, min |-> T.ThrMin, cap |-> T.ThrCap, tok |-> T.ThrCap, rec |-> FALSE, win |-> TRUE, lost |-> FALSE] ELSE [ThrOff EXCEPT !.win = (IF "WinOpen" \in DOMAIN T THEN T.WinOpen ELSE TRUE)])
-TFrame == T.ev = "frame" /\ Frame(AllOk(T.motion)) /\ fid' = T.id /\ Upd /\ UNCHANGED nBad
+         /\ thr' = (IF "ThrCap" \in DOMAIN T THEN [on |-> TRUE, min |-> T.ThrMin, cap |-> T.ThrCap, tok |-> T.ThrCap, rec |-> FALSE, win |-> TRUE, lost |-> FALSE, trigs |-> {}] ELSE [ThrOff EXCEPT !.win = (IF "WinOpen" \in DOMAIN T THEN T.WinOpen ELSE TRUE)])
+TFrame == T.ev = "frame" /\ Frame(AllOk(T.motion)) /\ fid' = T.id /\ UpdT(T.id) /\ UNCHANGED nBad
 TClear == T.ev = "clear" /\ Reset(TRUE) /\ Upd /\ UNCHANGED nBad
 TBad   == T.ev = "bad" /\ BadFrame(TRUE, TRUE) /\ Upd /\ nBad' = nBad + 1
 TRmTemps == /\ T.ev = "rmtemps" /\ ~thr.on          \* every *.cptv.temp of the output directory is unlinked (not the continuous recorder's)
@@ -120,6 +129,14 @@ TFiles == /\ T.ev = "files" /\ UNCHANGED <<pvars, mfiles, mcur, cfiles, ccur>>
                       \cup (IF thr.on /\ nConn = 1 /\ SumLen(T.motion, Len(T.motion)) > thr.cap THEN {"SYS:thr-budget-exceeded"} ELSE {})
                       \cup (IF thr.on /\ nConn = 1 /\ (\E k \in DOMAIN T.motion : SumLen(T.motion, k - 1) + thr.min > thr.cap)
                             THEN {"SYS:thr-start-without-full-clip"} ELSE {})
+                      \* C02 on the files themselves, throttled or not: a file that begins with the first pre-trigger frame of
+                      \* a trigger also holds that trigger's frame t (whenever min-secs*fps >= trigger-frames the throttle's
+                      \* start threshold (min-secs+preview-secs)*fps covers the pre-trigger frames and t)
+                      \cup (IF nConn = 1 /\ MinF >= TrigF /\ ~thr.lost /\
+                               (\E k \in DOMAIN T.motion : \E p \in thr.trigs :
+                                   /\ T.motion[k] # <<>> /\ T.motion[k][1] = p[1]
+                                   /\ \A i \in DOMAIN T.motion[k] : T.motion[k][i] # p[2])
+                            THEN {"SYS:file-with-preview-lacks-trigger-frame"} ELSE {})
              IN IF v = {} THEN TRUE ELSE PrintT(<<"VIOL", l, v, mfiles, cfiles>>)
 TNext == l <= Len(Trace) /\ l' = l + 1 /\ (TConn \/ TFrame \/ TClear \/ TBad \/ TFiles \/ TBus \/ TRmTemps)
 Consumed == TLCGet("stats").diameter - 1 = Len(Trace)
